@@ -166,6 +166,12 @@ def run(chk):
             first = min((c.lineno for c in ast.walk(f.node) if isinstance(c, ast.Call) and (dotted(c.func) or "") == "self." + exp[0][0]), default=None)
             for x in own_nodes(f.node):
                 if isinstance(x, (ast.Return, ast.Raise)) and first is not None and x.lineno < first:
+                    if isinstance(x, ast.Return) and isinstance(x.value, ast.Attribute) and dotted(x.value.value) == "self":
+                        # a remembered answer matters only if something remembers one (a store outside the constructor)
+                        cls_ = repo.cls(L, "LssMaster", "C18.R3")
+                        if not any(isinstance(n_, (ast.Assign, ast.AugAssign)) and any(dotted(t_) == src(x.value) for t_ in (n_.targets if isinstance(n_, ast.Assign) else [n_.target]))
+                                   for mn_, m_ in cls_.methods.items() if mn_ != "__init__" for n_ in ast.walk(m_.node)):
+                            continue
                     what = "returns" if isinstance(x, ast.Return) else "raises"
                     chk.bad("R3", f"{L}:LssMaster.{name} | the request is sent on every call", f.loc(x),
                             f"`{src(x)[:60]}` {what} before {exp[0][0]}() is reached: for some arguments / histories no request frame is sent and the answer does not come from the "
